@@ -48,7 +48,7 @@ EXEC_ALLOWED = {
 # D = explicit depth bound, S = seen-set / accumulating avoid-set over a graph of names, G = runs under a global guard
 RECURSIVE = {
     ('jedi.parser_utils', 'get_executable_nodes'): 'T', ('jedi.parser_utils', 'move'): 'T', ('jedi.parser_utils', 'expr_is_dotted'): 'T',
-    ('jedi.api.completion', 'extract_imported_names'): 'T', ('jedi.api.helpers', '_fuzzy_match'): 'T',
+    ('jedi.api.completion', 'extract_imported_names'): 'T',
     ('jedi.api.helpers', '_iter_arguments'): 'T', ('jedi.api.helpers', '_get_index_and_key'): 'T',
     ('jedi.api.refactoring.extract', '_remove_unwanted_expression_nodes'): 'T', ('jedi.api.refactoring.extract', '_check_for_non_extractables'): 'T',
     ('jedi.api.refactoring.extract', '_find_non_global_names'): 'T', ('jedi.api.refactoring.extract', '_is_node_ending_return_stmt'): 'T',
